@@ -91,11 +91,16 @@ class CollationManager(context_class_base):
         if collation is None:
             msg = 'collation cannot be an empty sequence'
             raise xpath_error('XPTY0004', msg, self.token)
-        elif not urlsplit(collation).scheme and token is not None:
-            # Collation is a relative URI: try to complete with the static base URI
-            base_uri = token.parser.base_uri
-            if base_uri:
-                collation = urljoin(base_uri, collation)
+
+        try:
+            if not urlsplit(collation).scheme and token is not None:
+                # Collation is a relative URI: try to complete with the static base URI
+                base_uri = token.parser.base_uri
+                if base_uri:
+                    collation = urljoin(base_uri, collation)
+        except ValueError:
+            msg = f"Unsupported collation {collation!r}"
+            raise xpath_error('FOCH0002', msg, self.token) from None
 
         if collation == UNICODE_CODEPOINT_COLLATION:
             self.lc_collate = None
@@ -137,7 +142,8 @@ class CollationManager(context_class_base):
 
             try:
                 locale.setlocale(locale.LC_COLLATE, self.lc_collate)
-            except locale.Error:
+            except (locale.Error, ValueError):
+                # ValueError: not a valid locale string (e.g. an embedded null character)
                 if not self.fallback:
                     self._current_lc_collate = None
                     _locale_collate_lock.release()
